@@ -132,6 +132,9 @@ def preceded {α β : Type} (a : Parser α) (b : Parser β) : Parser β := do le
 def terminated {α β : Type} (a : Parser α) (b : Parser β) : Parser α := do let x ← a; let _ ← b; pure x
 def delimited {α β γ : Type} (a : Parser α) (b : Parser β) (c : Parser γ) : Parser β := do
   let _ ← a; let x ← b; let _ ← c; pure x
+/-- `separated_pair(a, sep, b)`: `a`, then `sep` (dropped), then `b` (winnow 0.6.26 `combinator/sequence.rs`) -/
+def separatedPair {α β γ : Type} (a : Parser α) (sep : Parser β) (b : Parser γ) : Parser (α × γ) := do
+  let x ← a; let _ ← sep; let y ← b; pure (x, y)
 
 def seq2 {α β : Type} (a : Parser α) (b : Parser β) : Parser (α × β) := do
   let x ← a; let y ← b; pure (x, y)
